@@ -4,7 +4,11 @@ from bounded.geometry import run_geometry_scope
 from checks.common import CheckRun
 
 EXPLANATION = (
-    "B tier (bounded): the blueprints the real pipeline emits for the placement, interleaving, optimisation, memory and "
+    "P tier (unbounded): on the real RelayNode.can_route_network / add_network the relay invariant 'at most one network per "
+    "colour per relay' is preserved given the call-site precondition, which is discharged on the AST of "
+    "_find_or_create_relay_near (every reused relay is returned under its can_route_network guard); TileGrid.is_available / "
+    "mark_occupied / reserve_exact are proved against set-of-tiles postconditions (a relay is placed only on a tile that "
+    "was free, and exactly its footprint becomes occupied). B tier (bounded): the blueprints the real pipeline emits for the placement, interleaving, optimisation, memory and "
     "latch scopes (user entities far apart, multi-tile prototypes, fan-out, relays) under {no poles, small, medium, big, "
     "substation} x {optimise on/off} are checked against S4 (prototype collision boxes and wire reach from the game data "
     "shipped with draftsman): no two collision boxes intersect; every wire joins two existing entities at connectors they "
@@ -28,6 +32,11 @@ MODES_FULL = MODES_QUICK + [{"optimize": True, "power_pole_type": "big"}, {"opti
 
 def run(tier):
     cr = CheckRun("C08", tier, "other", EXPLANATION, "DESIGN §4 C08")
+    cr.contracts(["contracts.c08"])
+    from pyvc import guards
+    cr.ext_obligations.append(guards.guarded_returns(
+        "dsl_compiler/src/layout/connection_planner.py::RelayNetwork._find_or_create_relay_near",
+        "can_route_network", ("network_id", "wire_color"), allowed_calls=("_create_relay_directed",)))
     progs = scope(tier)
     modes = MODES_QUICK if tier == "quick" else MODES_FULL
     cr.bounded_check(run_geometry_scope, "pasteable", progs, modes, ("paste", "relay"),
